@@ -38,6 +38,23 @@ func fuzzText(r *rand.Rand, typ string) string {
 			return s
 		}
 	}
+	if r.IntN(9) == 0 {
+		// JSON-shaped texts: ledgers have stored typed values as JSON envelopes, and a conversion
+		// that starts accepting them meets envelopes with parts missing
+		val := core.Pick(r, []string{"null", "{}", "[]", "[1,2]", "\"USD 5\"", "12", "true", "1e2", "{\"asset\":\"USD/2\"}", "{\"asset\":\"USD/2\",\"amount\":null}",
+			"{\"asset\":\"USD/2\",\"amount\":100}", "{\"amount\":5}", "{\"asset\":null,\"amount\":5}", "{\"asset\":\"USD\",\"amount\":\"5\"}", "{\"asset\":\"USD\",\"amount\":-5}", "{\"asset\":\"USD\",\"amount\":1.5}",
+			"{\"num\":1,\"den\":0}", "{\"specific\":null}", "\"1/2\""})
+		switch r.IntN(4) {
+		case 0:
+			return val
+		case 1:
+			return "{\"type\":\"" + core.Pick(r, []string{"number", "monetary", "portion", "account", "string", "", "Monetary"}) + "\",\"value\":" + val + "}"
+		case 2:
+			return "{\"type\":\"" + typ + "\"}"
+		default:
+			return "{\"type\":\"" + typ + "\",\"value\":" + val + "}"
+		}
+	}
 	sp := func() string { return core.Pick(r, []string{"", "", " ", "  ", "\t"}) }
 	sign := func() string { return core.Pick(r, []string{"", "", "", "-", "+"}) }
 	switch typ {
